@@ -182,6 +182,24 @@ Proof. eexists. split; [vm_compute; reflexivity|]. split; vm_compute; reflexivit
 Example indep_check_rejects : indep_check (fun _ => None) (shells (compile [wit_i1])) = false.
 Proof. reflexivity. Qed.
 
+(* a list-valued `set` is covered by the guarded theorem: the whole `set` waits for the first unknown member
+   (it is one action that clears the list and appends all members), so PK.[9] := [!promise 2; Kb] gives
+   [Kx; Kb] whether promise 2 is declared before or after — and whatever the list held before is gone *)
+Definition a_alloc : str := [9]%N.
+Definition ex_i3 : instr := mkInstr (RObj PK) GNil GNil [(a_alloc, SList [RProm 2%N; RObj nKb])] [].
+Example set_list_deferred_as_a_whole : exists s s',
+  run (compile [ex_i3; wit_i0]) = Done s /\ run (compile [wit_i0; ex_i3]) = Done s' /\
+  indep_check (lookupP (sP s)) (shells (compile [ex_i3; wit_i0])) = true /\
+  read_list PK a_alloc (final_log s) = [nKx; nKb] /\ read_list PK a_alloc (final_log s') = [nKx; nKb] /\
+  read_list PK a_alloc ([UApp PK a_alloc nG] ++ final_log s) = [nKx; nKb] /\
+  (exists k, In (TDefer 2%N k) (sT s)) /\ (forall k, ~ In (TDefer 2%N k) (sT s')).
+Proof.
+  eexists. eexists. split; [vm_compute; reflexivity|]. split; [vm_compute; reflexivity|].
+  split; [vm_compute; reflexivity|]. split; [vm_compute; reflexivity|]. split; [vm_compute; reflexivity|].
+  split; [vm_compute; reflexivity|]. split; [eexists; vm_compute; in_list|].
+  intros k H. vm_compute in H. repeat (destruct H as [H|H]; [discriminate H|]). exact H.
+Qed.
+
 (* witness (Proofs/DeclP.v: wit_i0, wit_i1): i1 appends two classes [Ka (super: !promise 2); Kb] to one list,
    i0 declares promise 2 in another list.  No two instructions extend the same list, yet the order inside
    the list differs: the member that has to wait is appended after its sibling (known finding
